@@ -228,7 +228,7 @@ def nl_norm(b, nl):
     return dict(b, sing=f(b["sing"]), plur=f(b["plur"]))
 
 
-def real_run(jinja2, src, data, markup, style, ae, policy_trim, axis="plain", delims=None, nl="\n"):
+def real_run(jinja2, src, data, markup, style, ae, policy_trim, axis="plain", delims=None, nl="\n", env_kw=None):
     """-> (rendered | None, recorded calls, error); axis = configuration / installer variant"""
     from markupsafe import Markup
     rec = []
@@ -252,6 +252,8 @@ def real_run(jinja2, src, data, markup, style, ae, policy_trim, axis="plain", de
         pgettext = staticmethod(pg)
         npgettext = staticmethod(npg)
     kw = dict(extensions=["jinja2.ext.i18n"], autoescape=ae, newline_sequence=nl)
+    if env_kw:
+        kw.update(env_kw)
     if delims:
         kw.update(block_start_string=delims[0], block_end_string=delims[1], variable_start_string=delims[2],
                   variable_end_string=delims[3])
@@ -560,8 +562,15 @@ def run_histories(ctx, jinja2, blocks):
     for b in blocks[:ctx.size(150, 1500)]:
         st = ctx.rng.choice(["old", "new"])
         pol = ctx.rng.random() < 0.4
-        src = "<# NOTE: for translators #>\n" + print_block(b, delims) + "<< _('direct %(x)s') >><% if false %><< gettext('dead') >><% endif %>"
-        out, rec, err = real_run(jinja2, src, dict(b["data"], x=1), b["markup"], st, False, pol, "plain", delims=delims + ("<#", "#>"))
+        # whitespace-control options vary INDEPENDENTLY; tags sit on indented lines of their own so that they matter
+        wkw = {"trim_blocks": ctx.rng.random() < 0.5, "lstrip_blocks": ctx.rng.random() < 0.5, "keep_trailing_newline": ctx.rng.random() < 0.5}
+        blk = print_block(b, delims).replace("%>", "%>\n", 1)
+        blk = blk.replace("<% pluralize", "\n   <% pluralize").replace("<% endtrans", "\n\t<% endtrans")
+        src = ("<# NOTE: for translators #>\n" + blk + "\n  <% if true %>\n<< _('direct %(x)s') >>\n  <% endif %>\n"
+               "<% if false %><< gettext('dead') >><% endif %>\n")
+        ctx.count("babel_ws_" + "".join("1" if wkw[k] else "0" for k in ("trim_blocks", "lstrip_blocks", "keep_trailing_newline")))
+        out, rec, err = real_run(jinja2, src, dict(b["data"], x=1), b["markup"], st, False, pol, "plain", delims=delims + ("<#", "#>"),
+                                 env_kw=wkw)
         ctx.case(key=("babelopt", src, st, pol))
         ctx.count("o_babel_options")
         if out is None:
@@ -570,7 +579,9 @@ def run_histories(ctx, jinja2, blocks):
         ext_spelling = ctx.rng.choice(["jinja2.ext.i18n", " jinja2.ext.i18n , jinja2.ext.do", "jinja2.ext.i18n,jinja2.ext.loopcontrols"])
         opts = {"extensions": ext_spelling, "trimmed": "yes" if pol else "no", "newstyle_gettext": "1" if st == "new" else "off",
                 "block_start_string": "<%", "block_end_string": "%>", "variable_start_string": "<<", "variable_end_string": ">>",
-                "comment_start_string": "<#", "comment_end_string": "#>", "silent": ctx.rng.choice(["true", "false"]), "encoding": "utf-8"}
+                "comment_start_string": "<#", "comment_end_string": "#>", "silent": ctx.rng.choice(["true", "false"]), "encoding": "utf-8",
+                "trim_blocks": "true" if wkw["trim_blocks"] else "false", "lstrip_blocks": "yes" if wkw["lstrip_blocks"] else "no",
+                "keep_trailing_newline": "1" if wkw["keep_trailing_newline"] else "0"}
         try:
             res = list(babel_extract(io.BytesIO(src.encode("utf-8")), ("_", "gettext", "ngettext", "pgettext", "npgettext"), ["NOTE:"], opts))
         except Exception as e:
